@@ -279,7 +279,7 @@ class Model:
                     superseded=list(self.superseded), reopened=list(self.reopened), misclosed=list(self.misclosed),
                     misclosed_restarted=list(self.misclosed_restarted),
                     interrupts={k: list(v) for k, v in self.interrupts.items()},
-                    clock=self.clock)
+                    clock=self.clock, kills=getattr(self, "kills", 0))
 
 
 def enabled(m: Model, alphabet):
@@ -295,7 +295,7 @@ def enabled(m: Model, alphabet):
             ok = m.connected
         elif ev == "bounce1":
             ok = m.connected and m.bounces == 0
-        elif ev == "restart":
+        elif ev in ("restart", "kill"):
             ok = True
         elif ev == "next":
             ok = m.connected and m.eng_run == "r1"
@@ -409,6 +409,22 @@ class Sys:
             if m.eng_run is not None and "restart" not in m.interrupts.setdefault(m.eng_run, []):
                 m.interrupts[m.eng_run] = sorted(m.interrupts[m.eng_run] + ["restart"])
             return "restarted"
+        if ev == "kill":
+            # the aggregator process dies (no shutdown handling, nothing is written) and comes back on the same database.
+            # A run whose interruption the database has never heard of (no disconnect / graceful restart during it so far)
+            # cannot be continued: it is taken out of the oracles' scope like a misclosed one; a run that was interrupted
+            # and given back before is expected to be given back again.
+            self._new_aggregator()
+            m.connected = False
+            m.registered = False
+            m.kills = getattr(m, "kills", 0) + 1
+            if m.eng_run is not None:
+                if m.interrupts.get(m.eng_run):
+                    if "kill" not in m.interrupts[m.eng_run]:
+                        m.interrupts[m.eng_run] = sorted(m.interrupts[m.eng_run] + ["kill"])
+                elif m.eng_run not in m.misclosed:
+                    m.misclosed.append(m.eng_run)
+            return "killed"
         if ev == "uod":
             msg = EM.UodInfoMsg(readings=[_reading("A"), _reading("B")], commands=[],
                                 uod_definition=PM.UodDefinition(commands=[], system_commands=[], tags=[]),
@@ -563,7 +579,7 @@ def canon(s: Sys):
     dbk = (plot_logs, entries, values,
            tuple(r[1:] for r in db["recent_runs"]), tuple(r[1:] for r in db["recent_engines"]),
            tuple(tuple(x) for x in db["run_children"]))
-    mk = (m.bounces, m.registered, m.connected, m.uod_since_reg, m.eng_run, tuple(m.started), tuple(m.stopped), tuple(m.superseded), tuple(m.reopened), tuple(m.misclosed), tuple(m.misclosed_restarted),
+    mk = (getattr(m, "kills", 0) > 0, m.bounces, m.registered, m.connected, m.uod_since_reg, m.eng_run, tuple(m.started), tuple(m.stopped), tuple(m.superseded), tuple(m.reopened), tuple(m.misclosed), tuple(m.misclosed_restarted),
           tuple(sorted((k, tuple(v)) for k, v in m.interrupts.items())),
           tuple(sorted((tag, rel(t)) for tag, t in m.reports)),
           tuple(sorted((tag, rel(t)) for tag, t in m.last_report.items())))
